@@ -113,7 +113,7 @@ fn spec(prop: &str) -> Option<Spec> {
                 let s = uses(u);
                 i.drops >= 1 && (s.contains("join") || s.contains("select") || s.contains("join_handle"))
             },
-            quick: 6_000,
+            quick: 12_000,
             thorough: 80_000,
         },
         "C09" => Spec {
